@@ -278,13 +278,24 @@ def check_frames(ctx, P):
     g = GuardAnalysis(ser, P)
     tb = g.tb
     sc = {}
+    lb = None
+    # the start delimiter variable, whatever it is called: the local that is assigned start-delimiter constants in several places
+    sd_vals = {FR["SD1"], FR["SD2"], FR["SD3"]}
+    cand = {}
     for b, i, s in stmts(ser):
-        if "a" in s and ser.locals[s["a"]["l"]].get("name") == "sc" and not s["a"].get("p"):
+        if "a" in s and not s["a"].get("p"):
+            v = simplify(tb.rvalue(s["rv"]))
+            if v[0] == "const" and v[1] in sd_vals and not isinstance(v[1], bool):
+                cand.setdefault(s["a"]["l"], []).append(v[1])
+    sd_local = max(cand, key=lambda l: len(cand[l])) if cand else None
+    for b, i, s in stmts(ser):
+        if "a" in s and s["a"]["l"] == sd_local and not s["a"].get("p"):
             v = simplify(tb.rvalue(s["rv"]))
             for fs in g.at(b, i):
                 for k, vs in fs.items():
                     ks = show(simplify(k))
                     if "pdu_len" in ks and "Add" in ks:
+                        lb = simplify(k)  # the length byte: the value the delimiter is selected by
                         if vs[0] == "in":
                             for x in vs[1]:
                                 sc[x] = v[1] if v[0] == "const" else show(v)
@@ -293,10 +304,6 @@ def check_frames(ctx, P):
     want = {3: FR["SD1"], 11: FR["SD3"], "_": FR["SD2"]}
     ctx.ob("b.formats", "writer-sd-table", sc == want, "start delimiter selection %s differs from {3: SD1, 11: SD3, else: SD2}" % sc, ser.loc(0))
     # length_byte = pdu_len + dsap? + ssap? + 3
-    lb = None
-    for b, i, s in stmts(ser):
-        if "a" in s and ser.locals[s["a"]["l"]].get("name") == "length_byte":
-            lb = simplify(tb.rvalue(s["rv"]))
     parts = sorted(show(x) for x in flatten(lb, "Add")) if lb else None
     ctx.ob("b.formats", "length-byte", parts == sorted(["3", "pdu_len", "is_some(self.dsap)", "is_some(self.ssap)"]),
            "LE must be pdu_len + [DSAP] + [SSAP] + 3, found " + str(parts), ser.loc(0))
@@ -342,14 +349,26 @@ def check_frames(ctx, P):
     ctx.sample({"writer_sd": {str(k): v for k, v in sc.items()}, "telegram_len": {str(k): v for k, v in tlt.items()}, "reader": {str(k): v for k, v in rd.items()}})
     # extension bits
     ext = []
+    # the extension flags by role: the (multi-def) local ORed into the DA octet / the SA octet
+    from analysis.bufwrites import buffer_writes as _bw
+    role = {}
+    for w in _bw(ser, tb, lambda t: (path_str(t) or "") == "buffer"):
+        v = strip_casts(w["value"]) if w["kind"] == "store" else None
+        if v is not None and v[0] == "bin" and v[1] == "BitOr":
+            for x, y in ((v[2], v[3]), (v[3], v[2])):
+                px = path_str(strip_casts(x)) or ""
+                y = strip_casts(y)
+                if px in ("self.da", "self.sa") and y[0] == "local":
+                    role[y[1]] = {"self.da": "da_ext", "self.sa": "sa_ext"}[px]
     for b, i, s in stmts(ser):
-        if "a" in s and ser.locals[s["a"]["l"]].get("name") in ("da_ext", "sa_ext"):
+        if "a" in s and role.get(s["a"]["l"]) and not s["a"].get("p"):
+            nm = role[s["a"]["l"]]
             v = tb.rvalue(s["rv"])
             for fs in g.at(b, i):
                 for k, vs in fs.items():
-                    want_field = {"da_ext": "self.dsap", "sa_ext": "self.ssap"}[ser.locals[s["a"]["l"]]["name"]]
+                    want_field = {"da_ext": "self.dsap", "sa_ext": "self.ssap"}[nm]
                     if k[0] == "discr" and (path_str(k[1]) or "") == want_field and vs[0] == "in":
-                        ext.append((ser.locals[s["a"]["l"]]["name"], (path_str(k[1]) or "").split(".")[-1], tuple(sorted(vs[1])), v[1] if v[0] == "const" else show(v)))
+                        ext.append((nm, (path_str(k[1]) or "").split(".")[-1], tuple(sorted(vs[1])), v[1] if v[0] == "const" else show(v)))
     wantx = sorted([("da_ext", "dsap", ("Some",), 0x80), ("da_ext", "dsap", ("None",), 0), ("sa_ext", "ssap", ("Some",), 0x80), ("sa_ext", "ssap", ("None",), 0)])
     ctx.ob("b.formats", "writer-ext-bits", sorted(set(ext)) == wantx, "address extension bits written as %s, expected %s" % (sorted(set(ext)), wantx), ser.loc(0))
     # header offsets written vs read (zone domain gives the absolute index of every store)
@@ -370,11 +389,21 @@ def check_frames(ctx, P):
             v = ("v", idxl[0]["idx"], ())
             lo, hi = st.z.lo(v), st.z.hi(v)
             vals.add((lo, hi))
-        name = show(simplify(w["value"]))
+        val = strip_casts(simplify(w["value"]))
+        name = show(val)
+        # header octets by what is stored (not by the names of the locals involved)
+        if val[0] == "local" and val[1] == sd_local:
+            name = "<sd>"
+        elif val[0] == "bin" and val[1] == "BitOr":
+            ps = {path_str(strip_casts(x)) for x in (val[2], val[3])}
+            if "self.da" in ps:
+                name = "<da>"
+            elif "self.sa" in ps:
+                name = "<sa>"
         offs.setdefault(name, set()).update(vals)
     def exact(name):
         return sorted(lo for (lo, hi) in offs.get(name, ()) if lo == hi)
-    got = {"sd": exact("sc"), "da": exact("(self.da BitOr da_ext)"), "sa": exact("(self.sa BitOr sa_ext)"), "fc": exact("to_byte(self.fc)")}
+    got = {"sd": exact("<sd>"), "da": exact("<da>"), "sa": exact("<sa>"), "fc": exact("to_byte(self.fc)")}
     wanto = {"sd": [0, 3], "da": [1, 4], "sa": [2, 5], "fc": [3, 6]}
     ctx.ob("b.formats", "writer-offsets", got == wanto, "header octets are written at offsets %s, the frame formats (and the reader) need %s" % (got, wanto), ser.loc(0))
     le = sorted(set(x for n_, v_ in offs.items() if "try_from" in n_ and "pdu_len" in n_ for (x, y) in v_ if x == y))
@@ -426,7 +455,19 @@ def check_counts(ctx, P):
         return
     tb = TermBuilder(ser, P)
     rets = [tb.rvalue(s["rv"]) for b, i, s in stmts(ser) if "a" in s and mk_place(s["a"]) == (0, ())]
-    ctx.ob("d.count", "serialize-returns-cursor", len(rets) == 1 and (path_str(rets[0]) or "") == "cursor", "serialize must return its final cursor, returns %s" % [show(r) for r in rets], ser.loc(0))
+    # "the cursor" by role: the variable that indexes the store of the end delimiter (and is stepped past it)
+    from analysis.bufwrites import buffer_writes
+    ed_idx = set()
+    for w in buffer_writes(ser, tb, lambda t: (path_str(t) or "") == "buffer"):
+        if w["kind"] == "store" and simplify(w["value"]) == ("const", FR["ED"]):
+            for e in ser.blocks[w["b"]].stmts[w["i"]]["a"]["p"]:
+                if isinstance(e, dict) and "idx" in e:
+                    for st_ in subterms(tb.local(e["idx"])):  # the index is computed from the cursor variable (`cursor`, `cursor + 1`)
+                        if isinstance(st_, tuple) and st_ and st_[0] == "local":
+                            ed_idx.add(st_[1])
+    r0 = strip_casts(rets[0]) if len(rets) == 1 else None
+    ctx.ob("d.count", "serialize-returns-cursor", r0 is not None and r0[0] == "local" and r0[1] in ed_idx,
+           "serialize must return its final cursor (the variable stepped past the end delimiter), returns %s" % [show(r) for r in rets], ser.loc(0))
     for name, n in (("fdl::telegram::TokenTelegram::serialize", 3), ("fdl::telegram::ShortConfirmation::serialize", 1)):
         f = ctx.need_fn(CR, name)
         if f is None:
